@@ -261,8 +261,70 @@ func init() {
 		}
 		return sb.String()
 	})
+	// inputs around the length at which the 64-slot limit of pattern 4 starts to fail (found at start-up)
+	thr := 1
+	for ; thr < 400; thr++ {
+		if strings.HasPrefix(opFindString(strings.Repeat("ab", thr) + "c")(compileH(4)), "error:") {
+			break
+		}
+	}
+	for d := -3; d <= 3; d++ {
+		if n := thr + d; n > 0 {
+			in := strings.Repeat("ab", n) + "c"
+			add(fmt.Sprintf("stack-limit find near threshold %+d", d), 4, opFindString(in))
+			if d%2 == 0 {
+				add(fmt.Sprintf("stack-limit bool near threshold %+d", d), 4, opMatchString(in))
+			}
+		}
+	}
 	add("balanced replace", 1, opReplace("(a(b)c)(d)", "[$&|${o}]"))
 	add("backref replace 4200", 2, opReplace(sizedInput(4200, " go go"), "<$1>"))
+}
+
+// abortSweep: calls that are aborted by the stack limit at many different depths (inside
+// look-behind, look-ahead, atomic groups, lazy loops), each followed by ordinary calls on the
+// same Regexp, which must answer like a fresh one. Limits are swept so that the abort point
+// moves through the program.
+var abortPatterns = []struct{ src, long, short string }{
+	{`(?<=^(?:a\w?)*)\wx`, strings.Repeat("ab", 30) + "ax", "ax bx"},
+	{`(?=(?:a\w?)*$)\w+x?`, strings.Repeat("ab", 40), "ab"},
+	{`(?>(?:a|ab)*)(c)?\b`, strings.Repeat("ab", 50) + "c", "abc ab"},
+	{`^(?:a|b|ab)*?c(?<=(a|b)*c)`, strings.Repeat("ab", 40) + "c", "abc"},
+	{`(\w)(?:\1|b)*?(?!a)`, strings.Repeat("a", 90) + "b", "aab"},
+}
+
+func abortSweep(l *core.Local) {
+	for pi, ap := range abortPatterns {
+		// expected answers from Regexps that never ran the long input
+		type ans struct{ find, boolean, repl string }
+		exp := func(limit int) ans {
+			re := regexp2.MustCompile(ap.src, regexp2.OptionMaxBacktrackingStackSize(limit))
+			return ans{opFindString(ap.short)(re), opMatchString(ap.short)(re), opReplace(ap.short, "-")(re)}
+		}
+		for limit := 24; limit <= 160; limit++ {
+			want := exp(limit)
+			for order := 0; order < 2; order++ {
+				re := regexp2.MustCompile(ap.src, regexp2.OptionMaxBacktrackingStackSize(limit))
+				var first string
+				if order == 0 {
+					first = opFindString(ap.long)(re)
+				} else {
+					first = opMatchString(ap.long)(re)
+				}
+				l.Eval(1)
+				if strings.HasPrefix(first, "error:stacklimit") {
+					l.Count("abort_sweep_aborted_first_calls", 1)
+				}
+				got := ans{opFindString(ap.short)(re), opMatchString(ap.short)(re), opReplace(ap.short, "-")(re)}
+				l.Nontrivial("abort", fmt.Sprint(pi, limit, order))
+				if got != want {
+					l.Violate(core.Violation{Kind: "result-depends-on-history", Detail: fmt.Sprintf("pattern %q with stack limit %d: after a call on the long input (result %s) the calls on %q return %+v, a fresh Regexp returns %+v", ap.src, limit, first, ap.short, got, want),
+						Witness: core.Witness{Pattern: ap.src, Args: map[string]any{"abort_sweep": pi, "limit": limit, "order": order}}})
+					return
+				}
+			}
+		}
+	}
 }
 
 // runHistory executes the op indices on fresh shared Regexps and compares each
@@ -358,6 +420,13 @@ func runC12(r *core.Run) int {
 			h[j] = rng.Intn(n)
 		}
 		histories = append(histories, h)
+	}
+	// operations just below / above the stack-limit threshold of pattern 4, for bool and find calls:
+	// a history-dependent stack budget shows only within a few input lengths of the threshold
+	{
+		ml := r.Main()
+		abortSweep(ml)
+		ml.Done()
 	}
 	r.Workers = 4
 	for pass := 0; pass < 2; pass++ {
